@@ -88,6 +88,20 @@ class Check(c01.Check):
                 if status != 'ok':
                     out.append({'what': f'definition with one {name}.{ctor}({"" if argkind == "none" else argkind}) unit: {status}',
                                 'signature': f'c02:class-sweep:{name}', 'case': {'class': name, 'ctor': ctor, 'arg': argkind}})
+        # every constructor argument of every unit class replaced in turn by NaN / None / a string
+        iv, err = common.run_impl('c01', 'invalid_sweep', {'mode': 'nrt', 'kinds': ['nan', 'none', 'str'] + (['inf'] if self.tier == 'thorough' else [])},
+                                  timeout=1800)
+        if iv is None:
+            self.notes.append('invalid-input sweep failed: ' + err[-300:])
+        else:
+            self._invalid_sweep = True
+            seen = set()
+            for name, ctor, k, pname, kind in iv:
+                if (name, ctor) in seen:
+                    continue
+                seen.add((name, ctor))
+                out.append({'what': f'{name}.{ctor}(…, {pname}={kind}, …): the definition was compiled to bytes with the unit fed by the invalid value',
+                            'signature': f'c02:invalid-accepted:{name}', 'case': {'class': name, 'ctor': ctor, 'arg': k, 'name': pname, 'value': kind}})
         # units whose first input must run at their own rate, given the other rate: must be rejected
         import json as _json
         srref = _json.loads((common.VERIF / 'harness/c02_srfirst_ref.json').read_text())
